@@ -37,6 +37,8 @@ pub enum TOp {
     Rehandle,
     /// call `key_tag` on the input that keys node function (node, arg)
     Tag { node: u8, arg: u8 },
+    /// like `Rehandle`, but through `Storage::into_zalsa_handle` + `StorageHandle::into_storage`
+    Park,
 }
 
 #[derive(Clone, Debug, PartialEq, Eq, Hash, Serialize, Deserialize)]
@@ -84,7 +86,7 @@ fn gen_plan(t: &mut Tape, prog: &Program, which: Which, max_ops: u32) -> Vec<TOp
                 Which::Readers => t.weighted(&[5, 0, 0, 0, 1]),
                 Which::Cycles | Which::Proto => 0,
                 Which::Interning => t.weighted(&[3, 4]),
-                Which::Identities => t.weighted(&[3, 2, 4, 2]),
+                Which::Identities => t.weighted(&[3, 2, 4, 2, 0, 2]),
             };
             match k {
                 0 => {
@@ -96,10 +98,11 @@ fn gen_plan(t: &mut Tape, prog: &Program, which: Which, max_ops: u32) -> Vec<TOp
                 1 => TOp::Intern { ty: t.weighted(&[3, 3, 3, 2]) as u8, x: t.pick(4) },
                 2 => TOp::NewInput { val: t.pick(1000) },
                 3 => TOp::Rehandle,
-                _ => {
+                4 => {
                     let node = t.pick(nn) as u8;
                     TOp::Tag { node, arg: t.pick(prog.nodes[node as usize].nargs as u32) as u8 }
                 }
+                _ => TOp::Park,
             }
         })
         .collect()
@@ -290,6 +293,10 @@ fn run_thread(db: VDb, tid: u32, plan: Vec<TOp>) -> Vec<TRes> {
                 let k = db.ctx().nodekey(node, arg);
                 let r = catch_unwind(AssertUnwindSafe(|| *key_tag(&db, k))).map_err(classify_panic);
                 out.push(TRes::Tag((node, arg), r));
+            }
+            TOp::Park => {
+                db = db.park_and_resume();
+                out.push(TRes::Rehandled);
             }
             TOp::Rehandle => {
                 let fresh = db.clone();
